@@ -117,6 +117,14 @@ def check_roundtrip(h, rep, where):
                               bucket="C09:state-readable")
     check_host_decoders(h, env.current_state, t, where + " state")
     check_host_decoders(h, s2, t, where + " State.from_numpy")
+    # the address -> row map is a mapping: the order of its keys means nothing
+    hm = env.current_state.host_num_map
+    s4 = State.from_numpy(np.array(t, copy=True).flatten(), shape, dict(reversed(list(hm.items()))))
+    check_host_decoders(h, s4, t, where + " State.from_numpy(reordered host_num_map)")
+    for addr, hv in s4.hosts:
+        if tuple(int(x) for x in hv.address) != tuple(addr):
+            raise Failure("C09:state-hosts", f"{where}: State.hosts pairs address {tuple(addr)} with the row of host "
+                          f"{tuple(int(x) for x in hv.address)} (host_num_map given in another key order)")
     # a state that went through pickle still reads by the documented layout (if states can be pickled at all); when a
     # sibling environment exists (same names in the opposite order) one of ITS states goes through pickle first
     import pickle
